@@ -3,7 +3,7 @@ import itertools
 
 
 def graph_cfg(n_services, svc_edges, tag_carriers=None, tag_requests=None, decorators=None, scopes=None, n_params=0, param_edges=None,
-              svc_param_refs=None, order="asc", ghosts=None, param_sep="", todos=()):
+              svc_param_refs=None, order="asc", ghosts=None, param_sep="", todos=(), edge_style="args"):
     """svc_edges: set of (i,j) meaning s_i has argument @s_j; tag_carriers: {tag: [i...]}; tag_requests: {i: [tags]};
     decorators: list of (tag, [service indices referenced], [tags requested]); scopes: {i: scope};
     order: "asc" / "desc" order in which references are written; ghosts: {i: "first"|"last"} adds a reference to an undeclared
@@ -26,7 +26,14 @@ def graph_cfg(n_services, svc_edges, tag_carriers=None, tag_requests=None, decor
             args = ["@ghost"] + args
         elif (ghosts or {}).get(i) == "last":
             args = args + ["@ghost"]
-        if args:
+        if args and edge_style == "calls":
+            # the references sit in a later call, after a call without arguments
+            sv["calls"] = [["Init"], ["SetX", args]]
+        elif args and edge_style == "fields":
+            sv["fields"] = {"F%d" % i: a for i, a in enumerate(args)}
+        elif args and edge_style == "wither":
+            sv["calls"] = [["Init", []], ["WithY", args, True]]
+        elif args:
             sv["arguments"] = args
         tags = [t for t, cs in (tag_carriers or {}).items() if i in cs]
         if tags:
